@@ -81,6 +81,16 @@ Theorem C08_source_skeleton :
    pipe_returns = (2, 0)%nat)%string.
 Proof. exact pipeline_shape. Qed.
 
+(* ... and the conditions around the calls of the loop (what the window model's consumer step follows):
+   re-park under the error test and nothing else, flush after a success unconditionally *)
+Theorem C08_source_loop_guards :
+  pipe_loop_guards =
+    ["call WaitForItem"; "if !ok ends return"; "call getOrCreateDeviceCache"; "if device==nil ends continue";
+     "if !hasKnownChainKey ends continue"; "call Emit @ else(device==nil) @ !hasKnownChainKey"; "call processMessage";
+     "if err!=nil ends continue"; "call Add @ err!=nil"; "call Emit @ err!=nil"; "call processDeviceMessagesInQueue";
+     "call Emit"; "if err!=nil ends next"]%string.
+Proof. exact pipeline_loop_guards. Qed.
+
 (* termination: no schedule is infinite - the step relation is well founded on the states that satisfy
    the invariant (all reachable ones), so "once nothing can move" above is not a vacuous premise: every
    run gets there.  The measure: flushes still possible, then the distance of messages and registrar
@@ -205,6 +215,7 @@ Export Win.
 Print Assumptions C08_terminates.
 Print Assumptions C08_eventually_delivered.
 Print Assumptions C08_source_skeleton.
+Print Assumptions C08_source_loop_guards.
 Print Assumptions C08_every_decryptable_delivered.
 Print Assumptions C08_delivered_once_per_arrival.
 Print Assumptions C08_delivered_sound.
